@@ -71,7 +71,7 @@ theorem C08_pointers_readable (c : VCfg) (hc : c.LiveSeq) (P : Params) (ops : Li
     liveness = pointer equality: every read unchanged, invariant kept -/
 theorem C08_gc_preserves (c : VCfg) (hc : c.LiveEq) (s : St) (hs : WF s) (b f : Nat) :
     (∀ k v, readKV (gc c s b f).1 k v = readKV s k v) ∧ WF (gc c s b f).1 :=
-  ⟨fun k v => read_gc hc hs b f k v, wf_gc ⟨Or.inl ⟨hc.1, hc.2.1⟩, hc.2.2⟩ hs b f⟩
+  ⟨fun k v => read_gc hc hs b f k v, wf_gc ⟨Or.inl ⟨hc.1, hc.2.1⟩, hc.2.2.1, hc.2.2.2⟩ hs b f⟩
 
 def gcAll (c : VCfg) (s : St) (l : List (Nat × Nat)) : St := l.foldl (fun s x => (gc c s x.1 x.2).1) s
 
@@ -88,7 +88,7 @@ theorem C08_gc_sequence_preserves (c : VCfg) (hc : c.LiveEq) (s : St) (hs : WF s
 /-- reachable states + any GC schedule: reads after the GC runs = reads before -/
 theorem C08_gc_anytime (c : VCfg) (hc : c.LiveEq) (P : Params) (ops : List Op) (l : List (Nat × Nat)) (k : Bytes) (v : Nat) :
     readKV (gcAll c (run c (St.init P) ops) l) k v = readKV (run c (St.init P) ops) k v :=
-  (C08_gc_sequence_preserves c hc _ (wf_run ⟨Or.inl ⟨hc.1, hc.2.1⟩, hc.2.2⟩ (wf_init P) ops) l).1 k v
+  (C08_gc_sequence_preserves c hc _ (wf_run ⟨Or.inl ⟨hc.1, hc.2.1⟩, hc.2.2.1, hc.2.2.2⟩ (wf_init P) ops) l).1 k v
 
 /-! ### the as-is comparison: witness (corpus/C08/finding-gc-resurrects-unacked.ops) -/
 
@@ -101,11 +101,29 @@ def unackedWitness (c : VCfg) : St :=
 theorem C08_gc_fails_asis_unacked (c : VCfg) (hc : c.LiveGt ∧ c.WritePath) :
     readKV (unackedWitness c) [1] maxU64 = .val [1, 1, 1, 1] ∧
     readKV (gc c (unackedWitness c) 0 0).1 [1] maxU64 = .val [2, 2, 2, 2] := by
-  obtain ⟨⟨h1, h2, h3⟩, h4, h5⟩ := hc
+  obtain ⟨⟨h1, h2, h3, h6⟩, h4, h5⟩ := hc
   cases c with
-  | mk t r f o b p =>
-    simp only at h1 h2 h3 h4 h5
-    subst h1 h2 h3 h4 h5
+  | mk t r f o b p ml =>
+    simp only at h1 h2 h3 h4 h5 h6
+    subst h1 h2 h3 h4 h5 h6
+    cases p <;> decide
+
+/-! ### the miss branch made live (seeded shape): witness (corpus/C08/ghost-orphan.ops) -/
+
+def ghostWitness (c : VCfg) : St :=
+  run c (St.init ⟨4, 90, 1⟩)
+    [.put [1] maxU64 [1, 1, 1, 1] false 0, .orphan [7] maxU64 [2, 2, 2, 2] 0, .put [3] maxU64 [3, 3, 3, 3] false 0]
+
+/-- if a scanned record whose key the map does not hold at all counts as live, GC turns "not found"
+    into a never-acknowledged value -/
+theorem C08_gc_fails_miss_live (c : VCfg) (hc : c.MissLive ∧ c.WritePath) :
+    readKV (ghostWitness c) [7] maxU64 = .notfound ∧
+    readKV (gc c (ghostWitness c) 0 0).1 [7] maxU64 = .val [2, 2, 2, 2] := by
+  obtain ⟨⟨h1, h2, h3, h6⟩, h4, h5⟩ := hc
+  cases c with
+  | mk t r f o b p ml =>
+    simp only at h1 h2 h3 h4 h5 h6
+    subst h1 h2 h3 h4 h5 h6
     cases p <;> decide
 
 /-! ### the concurrent window -/
@@ -122,11 +140,11 @@ def concWitness (c : VCfg) : St :=
 theorem C08_gc_concurrent_fails_asis (c : VCfg) (hc : c.LiveSeq ∧ c.WritePath) :
     readKV (run c (concWitness c) [.put [1] maxU64 [9, 9, 9, 9] false 0]) [1] maxU64 = .val [9, 9, 9, 9] ∧
     readKV (gcInterleaved c (concWitness c) 0 0 [.put [1] maxU64 [9, 9, 9, 9] false 0]) [1] maxU64 = .val [1, 1, 1, 1] := by
-  obtain ⟨⟨hops, h3⟩, h4, h5⟩ := hc
+  obtain ⟨⟨hops, h3, h6⟩, h4, h5⟩ := hc
   cases c with
-  | mk t r f o b p =>
-    simp only at hops h3 h4 h5
-    subst h3 h4 h5
+  | mk t r f o b p ml =>
+    simp only at hops h3 h4 h5 h6
+    subst h3 h4 h5 h6
     rcases hops with ⟨h1, h2⟩ | ⟨h1, h2⟩ <;> subst h1 h2 <;> cases p <;> decide
 
 /-- PARTIAL (the full property fails, see above): when the client calls that land between rewrite's
@@ -138,7 +156,7 @@ theorem C08_gc_concurrent_fails_asis (c : VCfg) (hc : c.LiveSeq ∧ c.WritePath)
 theorem C08_gc_concurrent_partial (c : VCfg) (hc : c.LiveEq) (s : St) (hs : WF s) (b f : Nat) (mid : List Op)
     (hfresh : ∀ op, op ∈ mid → Fresh (gcLive c s b f) op) :
     (∀ k v, readKV (gcInterleaved c s b f mid) k v = readKV (run c s mid) k v) ∧ WF (gcInterleaved c s b f mid) := by
-  have hseq : c.LiveSeq := ⟨Or.inl ⟨hc.1, hc.2.1⟩, hc.2.2⟩
+  have hseq : c.LiveSeq := ⟨Or.inl ⟨hc.1, hc.2.1⟩, hc.2.2.1, hc.2.2.2⟩
   have hwf : WF (run c s mid) := wf_run hseq hs mid
   have hl := livePre_run (c := c) mid hfresh (fun r hr => livePre_of_selected hc hs hr)
   have hr := reinsert_spec c (run c s mid) b f (gcLive c s b f)
